@@ -1,15 +1,19 @@
 package c09
 
 import (
+	"bytes"
 	"encoding/json"
 	"fmt"
+	"io"
 	"strings"
 	"testing"
 
 	"github.com/fxamacker/cbor/v2"
+	"go.flow.arcalot.io/pluginsdk/atp"
 	"go.flow.arcalot.io/pluginsdk/schema"
 	"gopkg.in/yaml.v3"
 	"pgregory.net/rapid"
+	"verif/harness/atpx"
 	"verif/harness/ev"
 	"verif/harness/gen"
 	"verif/harness/oracle"
@@ -18,7 +22,7 @@ import (
 )
 
 func TestMain(m *testing.M) {
-	ev.Note("rule", "C09: rapid-generated scopes and whole plugin schemas (steps with input scope, 1-3 outputs incl. error outputs, signal handlers and emitters whose data scopes contain references, displays) over every feature the meta-schema has a row for: all describable kinds, units (built-in and generated), enums with display data, defaults, all presence rules, disabled + reason, examples, id-unenforced, nested scopes, self-referential references, one-of members object/ref/scope. Oracle: SelfSerialize succeeds; UnserializeScope / UnserializeSchema of the description succeeds and the result is usable as returned; so does the meta-schema route DescribeScope().Unserialize + ApplySelf; describing the rebuilt schema gives a description deep-equal to the first; the same after the description went through CBOR and through YAML; original and rebuilt agree on accept/reject of generated valid and mutated inputs (and on the unserialized value when the original has no struct mapping). Non-trivial: the schema uses >= 3 distinct optional meta-schema features and contains a reference; distinct by schema.")
+	ev.Note("rule", "C09: rapid-generated scopes and whole plugin schemas (steps with input scope, 1-3 outputs incl. error outputs, signal handlers and emitters whose data scopes contain references, displays) over every feature the meta-schema has a row for: all describable kinds, units (built-in and generated), enums with display data, defaults, all presence rules, disabled + reason, examples, id-unenforced, nested scopes, self-referential references, one-of members object/ref/scope. Oracle: SelfSerialize succeeds; UnserializeScope / UnserializeSchema of the description succeeds and the result is usable as returned; so does the meta-schema route DescribeScope().Unserialize + ApplySelf; describing the rebuilt schema gives a description deep-equal to the first; the same after the description went through CBOR and through YAML, and (plugin schemas) after it travelled in a hello message read by the real ATP client; original and rebuilt agree on accept/reject of generated valid and mutated inputs (and on the unserialized value when the original has no struct mapping). Non-trivial: the schema uses >= 3 distinct optional meta-schema features and contains a reference; distinct by schema.")
 	ev.RegisterReplay("scope", func(t *testing.T, raw json.RawMessage) {
 		var c ScopeCase
 		if err := json.Unmarshal(raw, &c); err != nil {
@@ -130,7 +134,7 @@ func viaCBOR(d any) (any, error) {
 		return nil, err
 	}
 	var out any
-	err = cbor.Unmarshal(b, &out)
+	err = atpx.Dec.Unmarshal(b, &out)
 	return out, err
 }
 
@@ -508,14 +512,14 @@ func runPlugin(c PluginCase) string {
 	if err != nil {
 		return fmt.Sprintf("a plugin schema built through the public constructors cannot describe itself: %v\nplugin: %s", err, pluginJSON(c))
 	}
-	check := func(label string, desc any) string {
+	checkWith := func(label string, load func() (*schema.SchemaSchema, error)) string {
 		var r *schema.SchemaSchema
 		var rerr error
-		if p := oracle.Safely(func() { r, rerr = schema.UnserializeSchema(desc) }); p != nil {
-			return fmt.Sprintf("UnserializeSchema of the %s description panicked: %v", label, p)
+		if p := oracle.Safely(func() { r, rerr = load() }); p != nil {
+			return fmt.Sprintf("rebuilding the plugin schema from the %s description panicked: %v", label, p)
 		}
 		if rerr != nil {
-			return fmt.Sprintf("the %s description of the plugin schema is not accepted by UnserializeSchema: %v", label, rerr)
+			return fmt.Sprintf("the %s description of the plugin schema is not accepted: %v", label, rerr)
 		}
 		var d2 any
 		if p := oracle.Safely(func() { d2, rerr = r.SelfSerialize() }); p != nil || rerr != nil {
@@ -552,7 +556,19 @@ func runPlugin(c PluginCase) string {
 		}
 		return ""
 	}
+	check := func(label string, desc any) string {
+		return checkWith(label, func() (*schema.SchemaSchema, error) { return schema.UnserializeSchema(desc) })
+	}
 	if msg := check("direct", d); msg != "" {
+		return msg + "\nplugin: " + pluginJSON(c)
+	}
+	// as carried in the ATP hello message: read by the real client
+	if hello, err := cbor.Marshal(atp.HelloMessage{Version: 3, Schema: d}); err != nil {
+		return fmt.Sprintf("plugin description cannot be put into a hello message: %v", err)
+	} else if msg := checkWith("hello-message (read by the ATP client)", func() (*schema.SchemaSchema, error) {
+		cl := atp.NewClient(helloChannel{Reader: bytes.NewReader(hello)})
+		return cl.ReadSchema()
+	}); msg != "" {
 		return msg + "\nplugin: " + pluginJSON(c)
 	}
 	if td, err := viaCBOR(d); err != nil {
@@ -567,6 +583,12 @@ func runPlugin(c PluginCase) string {
 	}
 	return ""
 }
+
+// helloChannel plays a recorded hello message to the client and swallows what the client writes.
+type helloChannel struct{ io.Reader }
+
+func (helloChannel) Write(p []byte) (int, error) { return len(p), nil }
+func (helloChannel) Close() error                { return nil }
 
 func specOfKey(c PluginCase, key string) *spec.Spec {
 	for _, st := range c.Steps {
@@ -609,6 +631,20 @@ func TestPluginSchemas(t *testing.T) {
 		scopeGen := func(label string) *spec.Spec {
 			s := gen.Spec(o).Draw(rt, label)
 			gen.AddDefaults(rt, s, o)
+			// now and then the scope sits at the bottom of a tower of nested scopes / lists: the description of a
+			// plugin schema has no depth limit of its own, whatever carries it must not have one either
+			if rapid.IntRange(0, 7).Draw(rt, label+"Tower") == 0 {
+				k := rapid.IntRange(1, 6).Draw(rt, label+"TowerHeight")
+				for i := 0; i < k; i++ {
+					var inner *spec.Spec = s
+					if rapid.Bool().Draw(rt, label+"TowerList") {
+						inner = &spec.Spec{Kind: spec.KList, Items: &spec.Spec{Kind: spec.KList, Items: s}}
+					}
+					id := fmt.Sprintf("T%d", i)
+					s = &spec.Spec{Kind: spec.KScope, Root: id, Objects: []*spec.Spec{{Kind: spec.KObject, ID: id, Props: []spec.Prop{{Name: "inner", Type: inner}}}}}
+				}
+				ev.Class(fmt.Sprintf("plugin_scope_tower_height=%d", k), 1)
+			}
 			return s
 		}
 		c := PluginCase{}
